@@ -85,7 +85,7 @@ let run_case line =
   let raw = List.filter (fun s -> String.trim s <> "") (String.split_on_char ';' body) in
   let items = List.filter_map parse_item raw in
   let has_g = List.exists (fun s -> match words s with "G" :: _ -> true | _ -> false) raw in
-  let is_lab w = String.length w > 0 && (w.[0] = 'L' || w.[0] = 'K') in
+  let is_lab w = String.length w > 0 && (w.[0] = 'L' || w.[0] = 'K' || w.[0] = 'W') in
   let addrs = List.filter_map (fun w ->
       match String.split_on_char ':' w with
       | [i; a] when not (is_lab i) -> Some (int_of_string i, z_of_hex a)
@@ -137,7 +137,36 @@ let run_case line =
     Buffer.add_string b " J:ok LR";
     List.iteri (fun i it -> match it with
         | ILref _ -> Buffer.add_string b (Printf.sprintf " %d:ok" i)
-        | _ -> ()) items
+        | _ -> ()) items;
+    (* label addresses: the body of G's label part in the model of C14/Labels.v (a label emits no code); labels the
+       model gives one address -- in particular a label and its last_label -- must have got one address from laddr.
+       Only for engines that emit no alignment padding between labels: interpreter, generator at -O0, lazy-BB stubs. *)
+    let gtoks = List.concat_map (fun s -> match words s with "G" :: t -> [t] | _ -> []) raw in
+    let shape = match gtoks with [] :: _ | [] -> ["r"; "r"; "r"] | t :: _ -> t in
+    let body = List.concat (List.mapi (fun k t ->
+        let tgt () = nat_of_int (Char.code t.[1] - 48) in
+        LLabel (nat_of_int k) :: (match t.[0] with
+            | 'r' | 'n' | 'b' | 's' -> [LCode (nat_of_int 1)]
+            | 'i' -> [LCode (nat_of_int 2)]
+            | 'j' -> [LJmp (tgt ())]
+            | _ -> [])) shape) @ [LCode (nat_of_int 1)] in
+    let raws = List.filter_map (fun w ->
+        match String.split_on_char ':' w with
+        | [i; a] when String.length i > 1 && i.[0] = 'W' -> Some (int_of_string (String.sub i 1 (String.length i - 1)), a)
+        | _ -> None) (words oracle) in
+    let engine = String.trim (String.sub case 0 colon) in
+    let exact = engine = "i" || engine = "g0" || engine = "l0" || (String.length engine > 0 && engine.[0] = 'b') in
+    let n = List.length shape in
+    let bad = ref "" in
+    if exact && List.length raws = n then
+      for k = 0 to n - 1 do
+        let ll = int_of_nat (last_label body (nat_of_int k)) in
+        let same_model = label_addr body (nat_of_int ll) = label_addr body (nat_of_int k) in
+        (* the theorem last_label_same_address, re-checked on the extracted functions, and the implementation *)
+        if not same_model then bad := Printf.sprintf "model(%d)" k
+        else if List.assoc ll raws <> List.assoc k raws && !bad = "" then bad := Printf.sprintf "%d<>%d" k ll
+      done;
+    Buffer.add_string b (if !bad = "" then " LA:ok" else " LA:bad(" ^ !bad ^ ")")
   end;
   print_endline (Buffer.contents b)
 
